@@ -31,6 +31,8 @@ class History(object):
         self.hub.flags.add("history:" + k)
 
     def on_route(self, kind, ind, node_id, dest, pre):
+        if kind == "jockey" and dest.id_number != -1 and dest.number_of_individuals >= dest.node_capacity:
+            self._mark("jockeyed_into_full_node")
         if kind == "reroute":
             self.rerouting_from = node_id
             if ind.is_blocked:
